@@ -494,7 +494,9 @@ func exec(h *rt.H, s *state, op string) string {
 				continue
 			}
 			e, ok := parseKV(x)
-			if !ok || !have {
+			if !ok || !have || e.v == "" {
+				// UpdateFromConfigUpdate is fed from ToConfigUpdate, i.e. from maps that went through
+				// UpdateFrom's empty-value filter: an empty value is not an input of this op.
 				return "bad-op"
 			}
 			after[cur] = append(after[cur], e)
@@ -772,7 +774,11 @@ func oracle(h *rt.H, s *state) {
 	for _, g := range decidingGroups {
 		// force every member to be processed last at least once, record the resulting field value
 		seen := map[int]string{}
-		for try := 0; try < maxTries && len(seen) < len(g.members); try++ {
+		distinctRaw := map[string]bool{}
+		for _, m := range g.members {
+			distinctRaw[m.v] = true
+		}
+		for try := 0; try < 4000 && len(seen) < len(distinctRaw); try++ {
 			c2, e2 := freshResolve(srcs)
 			if e2 {
 				break
@@ -921,7 +927,7 @@ func genValue1(h *rt.H, pi *pinfo) (string, string) {
 
 var unknownKeys = []string{"VerifUnknownA", "verifunknowna", "VERIFUNKNOWNA", "VerifUnknownB", "Verif_Plugin.key"}
 
-func genKVs(h *rt.H, ps []int, allowVariants bool) []string {
+func genKVs(h *rt.H, ps []int, allowVariants bool, allowEmpty bool) []string {
 	var out []string
 	used := map[string]bool{}
 	add := func(k, v, t string) {
@@ -938,6 +944,9 @@ func genKVs(h *rt.H, ps []int, allowVariants bool) []string {
 		pi := &allParams[i]
 		p := config.Params()[pi.lname]
 		v, cat := genValue(h, pi)
+		for v == "" && !allowEmpty {
+			v, cat = genValue(h, pi)
+		}
 		h.Count("val:" + cat)
 		add(caseVariant(h, pi.name), v, parseTok(p, v))
 		if allowVariants && h.Intn(100) < 18 {
@@ -954,7 +963,11 @@ func genKVs(h *rt.H, ps []int, allowVariants bool) []string {
 	}
 	if h.Intn(100) < 20 {
 		for n := 1 + h.Intn(2); n > 0; n-- {
-			add(rt.Pick(h, unknownKeys), rt.Pick(h, []string{"x", "y", "none", "", "some value"}), "-")
+			uv := rt.Pick(h, []string{"x", "y", "none", "", "some value"})
+			if uv == "" && !allowEmpty {
+				uv = "z"
+			}
+			add(rt.Pick(h, unknownKeys), uv, "-")
 			h.Count("gen:unknown-key")
 		}
 	}
@@ -1009,7 +1022,7 @@ func genCase(h *rt.H) []string {
 			perm := h.Rng.Perm(6)
 			for _, s := range perm[:1+h.Intn(4)] {
 				line += fmt.Sprintf(" s%d", s+1)
-				if kvs := genKVs(h, ps, variants); len(kvs) > 0 {
+				if kvs := genKVs(h, ps, variants, false); len(kvs) > 0 {
 					line += " " + strings.Join(kvs, " ")
 				}
 			}
@@ -1017,7 +1030,7 @@ func genCase(h *rt.H) []string {
 		} else {
 			src := 1 + h.Intn(6)
 			line := fmt.Sprintf("upd %d", src)
-			if kvs := genKVs(h, ps, variants); len(kvs) > 0 {
+			if kvs := genKVs(h, ps, variants, true); len(kvs) > 0 {
 				line += " " + strings.Join(kvs, " ")
 			}
 			ops = append(ops, line)
